@@ -16,7 +16,7 @@ func init() {
 			"each run gets a fresh env and Code carries no run state (R-C05-envfresh).",
 		NotCovered: "that outputs are equal across runs; read-only structure sharing (legal by design); user-supplied iterators and callbacks; GC address reuse in the uintptr-keyed allocator; aliasing that flows through bytecode rather than Go data flow (D7).",
 	})
-	reg(&Rule{ID: "R-C05-own", Props: []string{"C05", "C06", "C02"}, Floor: 60,
+	reg(&Rule{ID: "R-C05-own", Props: []string{"C05", "C06", "C02", "C03"}, Floor: 60,
 		Doc: "every write into a JSON container in package gojq targets a container owned by the running reduction",
 		Run: ruleC05Own})
 }
